@@ -252,7 +252,7 @@ macro_rules! str_from_iter {
         }
 
         const __STR81608BFNA5: &$crate::__::str =
-            match core::str::from_utf8(&__ARR81608BFNA5) {
+            match $crate::__::from_utf8(&__ARR81608BFNA5) {
                 $crate::__::Ok(x) => x,
                 $crate::__::Err(_) => $crate::__::panic!("created string isn't UTF8"),
             };
